@@ -1,0 +1,19 @@
+//go:build verif
+
+package batcher
+
+import "sync/atomic"
+
+// VerifHook, when set by the verification harness (build tag `verif`), is called at
+// every verifPoint with the point's name and argument.
+var verifHook atomic.Value
+
+func VerifSetHook(fn func(name string, arg interface{})) {
+	verifHook.Store(fn)
+}
+
+func verifPoint(name string, arg interface{}) {
+	if fn, ok := verifHook.Load().(func(name string, arg interface{})); ok && fn != nil {
+		fn(name, arg)
+	}
+}
